@@ -312,7 +312,17 @@ func (r *simRegistry) registry(req *http.Request, body []byte) (*http.Response, 
 		if r.plan.pick(fManifestGarble) != "" {
 			// a manifest body damaged in transit: nothing in the legacy protocol can detect it
 			g := append([]byte(nil), m...)
-			if len(g) > 0 {
+			if n := bytes.Count(g, []byte(`"sha256:`)); n > 0 && verifsim.Draw("garble-spelling", 4) == 0 {
+				// the other spelling of one digest (GetBlobsPath takes sha256-<hex> as
+				// well): the same blob under a different name
+				verifsim.Probe("manifest_digest_dash_spelling")
+				k := verifsim.Draw("garble-which", n)
+				at := 0
+				for i := 0; i <= k; i++ {
+					at += bytes.Index(g[at:], []byte(`"sha256:`)) + 1
+				}
+				g[at+len("sha256")] = '-'
+			} else if len(g) > 0 {
 				g[verifsim.Draw("garble-pos", len(g))] ^= byte(1 + verifsim.Draw("garble-bit", 255))
 			}
 			b.data = g
